@@ -129,6 +129,8 @@ class Interchain(Family):
             modes = [("xhub", n), ("rules", n // 2), ("", n // 2), ("lifecycle", n // 4)]
         if prop in ("C02", "C04", "C06"):
             modes.append(("xhub", n // 2))
+        if prop == "C05":
+            modes.append(("xhub", n // 2))   # one-to-many transactions with a child on another hub
         if prop == "C16":
             modes = [("lifecycle", n), ("", n // 2), ("xhub", n // 4), ("roles", n // 3), ("rules", n // 4)]
         if prop in ("C14", "C07", "C08"):
